@@ -593,7 +593,13 @@ def wrap_failed(h):
       h.stats["c11_unique_rejections"] = h.stats.get("c11_unique_rejections", 0) + 1
       rec["nontrivial"] = True
       d = ed.diff_snapshots(before, h.doc.snapshot())
-      if d:
+      from gx.hist_run import numeric_only, json_list_parsed_only, formula_cell
+      if d and (numeric_only(d) or json_list_parsed_only(d) or all(formula_cell(x, schema_before) for x in d)):
+        # the trace is the footprint of one of C04's recorded rollback findings (a type change earlier in the same
+        # bundle re-normalises a number / a JSON-list string; formula cells are not recalculated after a rollback),
+        # not of the rejected reference edit
+        h.stats["c11_unique_rejections_with_c04_footprint"] = h.stats.get("c11_unique_rejections_with_c04_footprint", 0) + 1
+      elif d:
         h._find("C11", "bundle rejected with UniqueReferenceError left a trace", "; ".join(d[:3]), rec)
     n0 = len(h.findings)
     out = orig(rec, before, schema_before, fault)
